@@ -413,6 +413,11 @@ func (handle *writeTxnHandle) Commit() ReadTxn {
 	// the root lock.
 	currentRoot := *db.root.Load()
 	root := txn.tableEntries
+	if len(currentRoot) > len(root) {
+		// Tables registered after WriteTxn() was called are not in the
+		// transaction's copy of the root. Keep them.
+		root = append(root, currentRoot[len(root):]...)
+	}
 	var initChansToClose []chan struct{}
 
 	// Insert the modified tables into the root tree of tables.
